@@ -48,13 +48,18 @@ type vkAuthIO interface {
 
 // vkCountingStore forwards everything to the real store and counts reads per user name.
 type vkCountingStore struct {
-	inner vkAuthIO
-	mu    sync.Mutex
-	reads map[string]int
+	inner     vkAuthIO
+	mu        sync.Mutex
+	reads     map[string]int
+	first     time.Time // instant of the first read since the last take()
+	lastFirst time.Time // ... of the window closed by the last take()
 }
 
 func (s *vkCountingStore) ReadUser(session int, name string, doNotLog bool) (defs.User, error) {
 	s.mu.Lock()
+	if s.first.IsZero() {
+		s.first = time.Now()
+	}
 	s.reads[strings.ToLower(name)]++
 	s.mu.Unlock()
 
@@ -75,6 +80,7 @@ func (s *vkCountingStore) take(name string) int {
 	defer s.mu.Unlock()
 	n := s.reads[name]
 	s.reads = map[string]int{}
+	s.lastFirst, s.first = s.first, time.Time{}
 
 	return n
 }
@@ -224,9 +230,10 @@ func vkPickVariant(seed, bi, si int) vkVariant {
 }
 
 type vkSeen struct {
-	Reply    string `json:"reply"`
-	Verified bool   `json:"verified"`
-	Retry    int    `json:"retry"`
+	Reply     string `json:"reply"`
+	Verified  bool   `json:"verified"`
+	Retry     int    `json:"retry"`      // Retry-After in ticks (rounded)
+	RetrySecs int    `json:"retry_secs"` // Retry-After as sent
 }
 
 // vkRLAttempt performs one login attempt against the real router.
@@ -262,6 +269,7 @@ func (w *vkRLWorld) attempt(u, pw string, v vkVariant) vkSeen {
 			seen.Retry = -1
 		} else {
 			seen.Retry = vkRound(time.Duration(secs) * time.Second)
+			seen.RetrySecs = secs
 		}
 	case http.StatusOK:
 		seen.Reply = "ok"
